@@ -140,4 +140,97 @@ theorem condSignal_pending {w : World} {g : Nat} {gd : Guard} (hg : w.guards[g]?
   intro g' hne
   simp [setGuardQ_guards_get, hne]
 
+/-! ### the footprint of a signal, observers included (`SigRel`, Sim/S3Guard) -/
+
+/-- the footprint of `cmb_condition_signal` on the guard of a condition: only that queue shrinks, the only new events are
+    the condition wake-ups of its satisfied waiters -/
+theorem condSignal_rel {w : World} {g : Nat} (hh : hasHandler w g = true) (hall : AllGWF w) : SigRel w (condSignal w g).1 := by
+  cases hg : w.guards[g]? with
+  | none => rw [condSignal_none hg]; exact SigRel.refl hall
+  | some gd =>
+    have hwf := hall g gd hg
+    by_cases hc : gd.q.count = 0
+    · rw [condSignal_empty hg hc]; exact SigRel.refl hall
+    · obtain ⟨q', hwf', hperm, heq⟩ := condSignal_spec hg hwf hc
+      rw [heq]
+      show SigRel w (setGuardQ (pushAll w (condWakes w (condSat w gd))) g q')
+      have hsub : ∀ x ∈ abs q', x ∈ abs gd.q := fun x hx => (List.mem_filter.1 (hperm.mem_iff.1 hx)).1
+      have hguards : ∀ (g' : Nat) (gd0 : Guard), w.guards[g']? = some gd0 →
+          ∃ gd' : Guard, (setGuardQ (pushAll w (condWakes w (condSat w gd))) g q').guards[g']? = some gd' ∧
+            gd'.observers = gd0.observers ∧ gd'.demands = gd0.demands ∧ gd'.isCond = gd0.isCond ∧ GWF gd'.q ∧
+            ∀ x ∈ abs gd'.q, x ∈ abs gd0.q := by
+        intro g' gd0 hg0
+        simp only [setGuardQ_guards_get, pushAll_guards]
+        by_cases hgg : g' = g
+        · subst hgg
+          have e : gd = gd0 := by rw [hg0] at hg; exact (Option.some.inj hg).symm
+          subst e
+          exact ⟨{ gd with q := q' }, by simp [hg0], rfl, rfl, rfl, hwf', hsub⟩
+        · exact ⟨gd0, by simp [hgg, hg0], rfl, rfl, rfl, hall g' gd0 hg0, fun _ hx => hx⟩
+      refine { evWaiters := rfl, procs := rfl, res := rfl, pools := rfl, bufs := rfl, oqs := rfl, pqs := rfl,
+               conds := rfl, flags := rfl, gvars := rfl, log := rfl, dispatched := rfl,
+               gsize := by simp [setGuardQ], guards := hguards, evnow := rfl, executed := rfl, cancelled := rfl,
+               current := rfl, pending := ?_, evinv := ?_, fault := id, wf := ?_ }
+      · refine ⟨wakeEvs w.ev.counter w.now (condWakes w (condSat w gd)), rfl, by simp, ?_⟩
+        intro e he
+        right
+        obtain ⟨hlt, _, _, _, x, hx, hex⟩ := wakeEvs_props he
+        obtain ⟨t, ht, rfl⟩ := List.mem_map.1 hx
+        obtain ⟨hlive, hdem⟩ := mem_condSat.1 ht
+        obtain ⟨i, hi1, hi2, rfl⟩ := (HashHeap.mem_liveTags _ _).1 hlive
+        have hk0 : (gd.q.tag i).key ≠ 0 := (hwf.keyOk i hi1 hi2).1
+        have hk1 : (gd.q.tag i).key - 1 + 1 = (gd.q.tag i).key := by omega
+        have hb : e.item.b = (gd.q.tag i).key := by rw [hex]; simp [mkEv, hk1]
+        have hin : (gd.q.tag i).key ∈ keys (abs gd.q) :=
+          Event.mem_keys.2 ⟨norm (gd.q.tag i), (HashHeap.mem_abs _ _).2 ⟨i, ⟨hi1, hi2⟩, rfl⟩, rfl⟩
+        refine ⟨g, gd, { gd with q := q' }, hg, by simp [setGuardQ_guards_get, hg], by rw [hb]; exact hin, ?_,
+          by rw [hb]; exact hdem, fun _ => hh, ?_, hlt⟩
+        · rw [hb]
+          intro hm
+          obtain ⟨y, hy, hyk⟩ := Event.mem_keys.1 hm
+          have := (List.mem_filter.1 (hperm.mem_iff.1 hy)).2
+          rw [hyk, hdem] at this
+          exact absurd this (by simp)
+        · rw [hb]; rw [hex]; simp [mkEv, hk1]
+      · intro hi; exact pushAll_evinv _ hi
+      · intro g' gd' hg'
+        have hsz : g' < w.guards.size := by
+          rcases Nat.lt_or_ge g' w.guards.size with h | h
+          · exact h
+          · have : (setGuardQ (pushAll w (condWakes w (condSat w gd))) g q').guards.size = w.guards.size := by simp [setGuardQ]
+            rw [Array.getElem?_eq_none (by omega)] at hg'; cases hg'
+        obtain ⟨gd'', hg'', _, _, _, hw'', _⟩ := hguards g' _ (Array.getElem?_eq_getElem hsz)
+        rw [hg'] at hg''; cases hg''
+        exact hw''
+
+/-- what a signal does at the guard itself keeps the footprint -/
+theorem ownStep_rel (fwd : Bool) {w : World} {g : Nat} {gd : Guard} (hg : w.guards[g]? = some gd) (hwf : AllGWF w) :
+    SigRel w (ownStep fwd w g gd) := by
+  unfold ownStep
+  split
+  · rename_i h
+    simp only [Bool.and_eq_true] at h
+    exact condSignal_rel h.2 hwf
+  · exact frontStep_rel hg hwf
+
+/-- the footprint of a signal (direct or forwarded), observers included -/
+theorem guardSignalF_rel : ∀ (fuel : Nat) (fwd : Bool) (w : World) (g : Nat), AllGWF w → SigRel w (guardSignalF fwd fuel w g) := by
+  intro fuel
+  induction fuel with
+  | zero => intro fwd w g h; rw [guardSignalF_zero]; exact SigRel.fail h _
+  | succ fuel ih =>
+    intro fwd w g h
+    rw [guardSignalF_succ]
+    cases hg : w.guards[g]? with
+    | none => exact SigRel.refl h
+    | some gd =>
+      have h1 := ownStep_rel fwd hg h
+      exact h1.trans (foldl_sigRel _ (fun w o hw => ih true w o hw) _ _ h1.wf)
+
+/-- the footprint of `cmb_resourceguard_signal`, observers included -/
+theorem guardSignal_rel (fuel : Nat) (w : World) (g : Nat) (h : AllGWF w) : SigRel w (guardSignal fuel w g) :=
+  guardSignalF_rel fuel false w g h
+
+theorem signal_rel (w : World) (g : Nat) (h : AllGWF w) : SigRel w (signal w g) := guardSignal_rel 8 w g h
+
 end CimbaModel.Sim.S3
